@@ -1,5 +1,6 @@
 """C05 — validation never crashes; structural safety of the shared walk."""
 import ast
+import re
 
 from .. import shapes, excflow, nodeshape
 from ..cfg import event_paths, Flow, calls_only_may_raise
@@ -267,7 +268,13 @@ def check(prog, run):
         for kind, st, env in exits:
             calls = [boolx.text(c.func) for c in env.get(boolx.CALLS, ())]
             reported = any(c.split(".")[-1] in ("_report_bad_value", "add_error") or c.split(".")[-1].startswith("_check_") for c in calls)
+            # ... or the type-info stacks hold no expected type at this depth (`len(self.type_info.<stack>) < 2`, whichever way the
+            # comparison is written: with too few entries there is no type to test)
+            def _short_stack(k, v):
+                mm = re.match(r"^len\(self\.type_info\.\w+\) *(<|<=|>=|>|==) *\d+$", k)
+                return bool(mm) and ((mm.group(1) in ("<", "<=", "==") and v is True) or (mm.group(1) in (">=", ">") and v is False))
             unknown = any((k.endswith(" is None") and v is True) or (k != boolx.CALLS and v is False and k.replace(".", "_").isidentifier())
+                          or (isinstance(k, str) and _short_stack(k, v))
                           for k, v in env.items())
             if not (reported or unknown):
                 cond = ", ".join("%s=%s" % kv for kv in sorted(env.items()) if kv[0] not in boolx.META)
